@@ -554,6 +554,46 @@ def part_keys(fx, tmp):
             else:
                 C.nontrivial()
             shutil.rmtree(d, ignore_errors=True)
+    # EC key files written with the compressed point form (the same keys; leading-zero coordinates included)
+    for meta in index:
+        name = meta["name"]
+        if meta.get("kty") != "EC":
+            continue
+        for form in ("priv", "pub"):
+            if not C.case("key2jwk on %s (%s) re-written with the compressed point form" % (name, form)):
+                continue
+            d = tempfile.mkdtemp(dir=tmp)
+            src = os.path.join(KEYS, "%s.%s.pem" % (name, form))
+            cpem = os.path.join(d, "c.pem")
+            args = ["openssl", "ec", "-in", src, "-conv_form", "compressed", "-out", cpem]
+            if form == "pub":
+                args[2:2] = ["-pubin", "-pubout"]
+            r = subprocess.run(args, capture_output=True)
+            if r.returncode != 0 or not os.path.exists(cpem):
+                C.obs("openssl-cannot-convert")
+                shutil.rmtree(d, ignore_errors=True)
+                continue
+            out = os.path.join(d, "out.json")
+            rc, so, se = run([tool("key2jwk"), "-q", "-k", "-o", out, cpem])
+            try:
+                jwk = json.load(open(out))["keys"][0]
+            except Exception as ex:
+                C.violation("key2jwk|fails", "%s %s (compressed form): exit %d %s" % (name, form, rc, ex))
+                shutil.rmtree(d, ignore_errors=True)
+                continue
+            ref = json.load(open(os.path.join(KEYS, "%s.%s.jwk" % (name, form))))
+            w = EC_WIDTH[ref["crv"]]
+            C.obs(jwk.get("crv"))
+            for m in ("x", "y", "d"):
+                if m not in ref:
+                    continue
+                got = b64d(jwk.get(m, ""))
+                if int.from_bytes(got, "big") != int.from_bytes(b64d(ref[m]), "big"):
+                    C.violation("key2jwk|ec-member-differs", "%s %s (compressed form): %s differs from the PEM" % (name, form, m))
+                elif len(got) != w:
+                    C.violation("key2jwk|ec-member-not-fixed-width", "%s %s (compressed form): %s has %d octets, RFC 7518 6.2.1 requires %d" % (name, form, m, len(got), w))
+            C.nontrivial()
+            shutil.rmtree(d, ignore_errors=True)
     # several key files in one key2jwk call (with generated kids), written back by one jwk2key call from a file and from stdin
     if C.case("key2jwk with six key files of every type at once (random kids), jwk2key from file and from standard input"):
         d = tempfile.mkdtemp(dir=tmp)
